@@ -18,6 +18,7 @@ def run(ctx):
     netprops.run_scenarios(ctx, res, netprops.scenario_streams, ctx.budget(150, 36000, 500), "streams-cb", with_callbacks=True)
     netprops.run_scenarios(ctx, res, netprops.scenario_cut, ctx.budget(60, 12000, 200), "cut")
     netprops.process_level_multichannel(ctx, res, ngw=2 if not ctx.thorough else 3)
+    netprops.process_level_backlog(ctx, res, sizes=(1000, 1001, 5000))
     return res
 
 
